@@ -20,7 +20,8 @@ def implRows (label : String) : M (Option Nat) := do
   | _ => pure none
 
 def handleNew : M Unit :=
-  modify fun s => { s with forest := ⟨[]⟩, stack := [], idx := none, maxRows := 0, extra := {} }
+  modify fun s => { s with forest := ⟨[]⟩, stack := [], idx := none, maxRows := 0, extra := {},
+                           blocks := [], cache := [] }
 
 def handleBlock (line : String) (toks : List String) : M Unit := do
   match toks with
@@ -29,7 +30,7 @@ def handleBlock (line : String) (toks : List String) : M Unit := do
     | some dels, some adds =>
       let s ← get
       let f' := s.forest.modify dels adds
-      set { s with stack := s.forest :: s.stack, forest := f', idx := none,
+      set { s with stack := s.forest :: s.stack, blocks := (dels, adds) :: s.blocks, forest := f', idx := none,
                    maxRows := max s.maxRows (forestRows f'.numLeaves) }
       count "block" line (dels.length + adds.length > 0)
     | _, _ => parseError line
@@ -38,7 +39,15 @@ def handleBlock (line : String) (toks : List String) : M Unit := do
 def handleUndo (line : String) : M Unit := do
   let s ← get
   match s.stack with
-  | f :: rest => set { s with forest := f, stack := rest, idx := none }; count "undo" line
+  | f :: rest =>
+    -- a cached proof loses the leaves the undone block added; the leaves it deleted are
+    -- documented as not restored
+    let adds := match s.blocks with
+      | (_, a) :: _ => a
+      | [] => []
+    set { s with forest := f, stack := rest, blocks := s.blocks.drop 1, idx := none,
+                 cache := s.cache.filter (fun x => !adds.contains x) }
+    count "undo" line
   | [] => parseError line
 
 /-- model of the three verifier entry points, as the string the harness prints -/
@@ -149,6 +158,57 @@ def handleObs (line : String) (toks : List String) : M Unit := do
     if what == "modifyfail" || what == "undofail" then mismatch what "ok" (impl ++ " " ++ what)
     else parseError line
   | _ => parseError line
+
+/-- what a cached proof for the leaf list `c` must be: the (position, leaf) pairs as a set
+(rendered sorted by position) and the canonical proof hashes -/
+def cachedExpect (I : Spec.Index H256) (c : List H256) : Option String :=
+  match I.canon c with
+  | some (ts, hs) =>
+    let pairs := ((ts.map (enc I.rows)).zip c).mergeSort (fun a b => a.1 ≤ b.1)
+    some s!"{nats (pairs.map (·.1))} {hxs (pairs.map (·.2))} {hxs hs}"
+  | none => none
+
+def cachedGot (hs : List H256) (ts : List U64) (ps : List H256) : String :=
+  let pairs := ((ts.map (·.toNat)).zip hs).mergeSort (fun a b => a.1 ≤ b.1)
+  s!"{nats (pairs.map (·.1))} {hxs (pairs.map (·.2))} {hxs ps}"
+
+/-- compare what the light client holds with the canonical proof of the expected set -/
+def checkCached (kind : String) (line : String) (rest : List String) : M Unit := do
+  let s ← get
+  let I ← getIndex
+  count kind line (!s.cache.isEmpty)
+  match rest with
+  | [hs, ts, ps, v] =>
+    match parseHashes hs, parseU64s ts, parseHashes ps with
+    | some hs, some ts, some ps =>
+      if hs.length != ts.length then mismatch kind "as many targets as hashes" s!"{hs.length} hashes, {ts.length} targets"
+      else match cachedExpect I s.cache with
+        | some exp =>
+          expectEq kind exp (cachedGot hs ts ps)
+          if v != "v=ok" then mismatch kind "v=ok" v
+        | none => oracleFail kind "expected cached leaf is not live in the specification forest (harness/driver drift)"
+    | _, _, _ => parseError line
+  | [res] => mismatch kind "a cached proof" res
+  | _ => parseError line
+
+/-- `cupdate <rememberIdx> <hashes> <targets> <proof> v=<verify>`: follows the `block` line -/
+def handleCUpdate (line : String) (toks : List String) : M Unit := do
+  match toks with
+  | rem :: rest =>
+    match parseNats rem with
+    | some rem =>
+      let s ← get
+      let (dels, adds) := match s.blocks with
+        | b :: _ => b
+        | [] => ([], [])
+      let remembered := rem.filterMap (fun i => adds[i]?)
+      set { s with cache := s.cache.filter (fun x => !dels.contains x) ++ remembered }
+      checkCached "cupdate" line rest
+    | none => parseError line
+  | [] => parseError line
+
+/-- `cundo <hashes> <targets> <proof> v=<verify>`: follows the `undo` line -/
+def handleCUndo (line : String) (toks : List String) : M Unit := checkCached "cundo" line toks
 
 def nonZeroPlaceholder : H256 := ⟨0x0100000000000000, 0, 0, 0⟩
 
